@@ -99,6 +99,7 @@ func (c *client) SendRPC(rpc hrpc.Call) (msg proto.Message, err error) {
 
 	backoff := backoffStart
 	serverErrorCount := 0
+	notServingCount := 0
 	for {
 		rc, err := c.getRegionAndClientForRPC(ctx, rpc)
 		if err != nil {
@@ -127,6 +128,19 @@ func (c *client) SendRPC(rpc hrpc.Call) (msg proto.Message, err error) {
 			serverErrorCount++
 			continue // retry
 		case region.NotServingRegionError:
+			// Retry right away: the region is re-established before the
+			// request is sent again, and that backs off for as long as
+			// the region cannot be established. But a region that can be
+			// established and keeps refusing the request would make this
+			// a hot loop, so start to backoff then.
+			if notServingCount > 1 {
+				sp.AddEvent("retrySleep")
+				backoff, err = sleepAndIncreaseBackoff(ctx, backoff)
+				if err != nil {
+					return msg, err
+				}
+			}
+			notServingCount++
 			continue // retry
 		}
 		return msg, err
@@ -277,6 +291,8 @@ func (c *client) SendBatch(ctx context.Context, batch []hrpc.Call) (
 	var unretryableErrorSeen bool
 	var retries []hrpc.Call
 	backoff := backoffStart
+	// immediateRetries counts the rounds retried without backoff
+	immediateRetries := 0
 
 	for {
 		// batch can be a subset of the original batch (the calls being
@@ -331,6 +347,13 @@ func (c *client) SendBatch(ctx context.Context, batch []hrpc.Call) (
 		// retries is empty), or the context is done.
 		if len(retries) == 0 || ctx.Err() != nil {
 			break
+		}
+		if !needBackoff {
+			// ServerError and NotServingRegionError are retried right
+			// away to failover fast, but if they keep coming we should
+			// start to backoff. We don't want to overwhelm HBase.
+			immediateRetries++
+			needBackoff = immediateRetries > 2
 		}
 		if needBackoff {
 			sp.AddEvent("retrySleep")
